@@ -1651,8 +1651,16 @@ def bi_sorted(I, args, kw):
     v = I.force(args[0])
     key = kw.get("key")
     rev = kw.get("reverse")
-    if rev is not None and const_of(rev) is not False:
-        raise Unsupported("sorted(reverse=...)")
+    rev = False if rev is None else const_of(rev)
+    if not isinstance(rev, bool):
+        raise Unsupported("sorted(reverse=<symbolic>)")
+    if rev:
+        # descending stable sort of a sequence: same trusted model as list.sort(reverse=True)
+        if isinstance(v, (VEmptySet, VEmptyList)):
+            return VEmptyList()
+        if isinstance(v, (VMapView, VMap, VSet)):
+            raise Unsupported("sorted(<map/set>, reverse=True)")
+        return sort_seq(I, to_seq(I, v), key, reverse=True)
     if key is None and not I.spec:
         r = jsontree.sorted_of(I, v)       # python-side JSON model: exact sort by forking on comparisons
         if r is not None:
